@@ -42,6 +42,10 @@ struct S {
     awaiting: Awaiting,
     obs: Observer,
     mailbox: Mailbox,
+    /// the actor is restarted (and has answered a ping afterwards) before anything else happens:
+    /// 0 = never, 1 = Addr::restart with the default strategy, 2 = with RecreateFromDefault,
+    /// 3 = from its own context. The handles the observers use were all made before the restart.
+    restarted: u8,
 }
 
 impl Scene for S {
@@ -62,18 +66,23 @@ impl Scene for S {
     fn setup(&self, exec: &Exec) {
         let cfg = SpawnCfg {
             mailbox: self.mailbox,
-            strat: Strat::Default,
+            strat: if self.restarted == 2 { Strat::Recreate } else { Strat::Default },
             timeout: if self.cause == Cause::TimeoutFail { Some((2, true)) } else { None },
         };
         let addr = spawn_probe(0, cfg).detach();
         // terminator
-        let t_ops = match self.cause {
+        let mut t_ops = match self.restarted {
+            0 => vec![],
+            3 => vec![Op::Cmd(H::Addr(0), 7, Action::Restart), Op::Ping(H::Addr(0)), Op::Sleep(3)],
+            _ => vec![Op::Restart(H::Addr(0)), Op::Ping(H::Addr(0)), Op::Sleep(3)],
+        };
+        t_ops.extend(match self.cause {
             Cause::Stop | Cause::StoppedPanic | Cause::Cancel(_) => vec![Op::Send(H::Addr(0), 1), Op::Stop(H::Addr(0))],
             Cause::DropAll => vec![Op::Send(H::Addr(0), 1)],
             Cause::CtxStop => vec![Op::Cmd(H::Addr(0), 2, Action::Stop)],
             Cause::HandlerPanic | Cause::TimeoutFail => vec![Op::Send(H::Addr(0), 99)],
             Cause::StartErr | Cause::StartPanic => vec![Op::Send(H::Addr(0), 1)],
-        };
+        });
         // observer: two rounds of queries
         let strong_obs = self.cause != Cause::DropAll;
         let mut oh = Handles::default();
@@ -390,8 +399,21 @@ fn base_cases(tier: Tier) -> Vec<Case> {
                         desc: format!("liveness cause={cause:?} awaiting={awaiting:?} obs={obs:?} mailbox={}", mailbox.name()),
                         exec,
                         bound: None,
-                        scene: Box::new(S { cause, awaiting, obs, mailbox }),
+                        scene: Box::new(S { cause, awaiting, obs, mailbox, restarted: 0 }),
                     });
+                    // the same history after a processed restart (not for the causes in which the
+                    // first start fails, and not with the one-shot cancellation point)
+                    if matches!(cause, Cause::Stop | Cause::DropAll | Cause::CtxStop | Cause::HandlerPanic | Cause::StoppedPanic) {
+                        let kinds: &[u8] = if tier == Tier::Quick && awaiting != Awaiting::Nobody { &[1] } else { &[1, 2, 3] };
+                        for &restarted in kinds {
+                            v.push(Case {
+                                desc: format!("liveness [restarted first: {}] cause={cause:?} awaiting={awaiting:?} obs={obs:?} mailbox={}", ["", "Addr::restart", "Addr::restart, recreated", "Context::restart"][restarted as usize], mailbox.name()),
+                                exec: ExecCfg::default(),
+                                bound: None,
+                                scene: Box::new(S { cause, awaiting, obs, mailbox, restarted }),
+                            });
+                        }
+                    }
                 }
             }
         }
